@@ -224,3 +224,34 @@ CORPUS += [
     V("C08", "eq-flp-mask-logical-not", G_ + "flp/env.py", "        action_mask = ~chosen\n", "        action_mask = torch.logical_not(chosen)\n", None),
     V("C08", "eq-dpp-done-rearranged", E_ + "dpp/env.py", 'done = td["i"] >= self.max_decaps - 1', 'done = td["i"] + 1 >= self.max_decaps', None),
 ]
+
+FJ_ = S_ + "fjsp/env.py"
+CORPUS += [
+    # ---------------------------------------------------------------- C07
+    V("C07", "fjsp-busy-until-wrong-proc-time", FJ_, 'td["busy_until"][batch_idx, selected_machine] = td["time"] + proc_time_of_action', 'td["busy_until"][batch_idx, selected_machine] = td["time"] + td["proc_times"][batch_idx, selected_machine].max(-1).values', "C07.b"),
+    V("C07", "fjsp-finish-on-wrong-index", FJ_, 'td["finish_times"][batch_idx, selected_op] = td["time"] + proc_time_of_action', 'td["finish_times"][batch_idx, selected_job] = td["time"] + proc_time_of_action', "C07.b"),
+    V("C07", "fjsp-proc-time-swapped-index", FJ_, 'proc_time_of_action = td["proc_times"][batch_idx, selected_machine, selected_op]', 'proc_time_of_action = td["proc_times"][batch_idx, selected_op, selected_machine]', "C07.b"),
+    V("C07", "fjsp-decode-div-mod-swapped", FJ_, 'selected_job = td["action"] // self.num_mas', 'selected_job = td["action"] % self.num_mas', "C07.c"),
+    V("C07", "fjsp-decode-by-num-jobs", FJ_, 'selected_machine = td["action"] % self.num_mas', 'selected_machine = td["action"] % self.num_jobs', "C07.c"),
+    V("C07", "fjsp-flatten-m-j", FJ_, '"bs j m -> bs (j m)"', '"bs j m -> bs (m j)"', "C07.c"),
+    V("C07", "fjsp-no-action-shift", FJ_, '        td["action"].subtract_(1)\n', '', "C07.c"),
+    V("C07", "fjsp-release-strict", FJ_, '(curr_ops_end <= td["time"][:, None])', '(curr_ops_end < td["time"][:, None])', "C07.d"),
+    V("C07", "fjsp-time-nonstrict-advance", FJ_, 'available_time_ma > td["time"][:, None], available_time_ma, torch.inf', 'available_time_ma >= td["time"][:, None], available_time_ma, torch.inf', "C07.d"),
+    V("C07", "fjsp-next-op-past-last", FJ_, "            op_finished & ~job_finished,\n", "            op_finished,\n", "C07.d"),
+    V("C07", "fjsp-avail-ignores-in-process", FJ_, '        action_mask.add_(td["job_in_process"].unsqueeze(2))\n', '', "C07.a"),
+    V("C07", "fjsp-avail-ignores-busy", FJ_, '        action_mask.add_(td["busy_until"].gt(td["time"].unsqueeze(1)).unsqueeze(1))\n', '', "C07.a"),
+    V("C07", "ffsp-wait-counters-differ", S_ + "ffsp/env.py", 'td["job_wait_step"][batch_idx, job_idx] = job_length', 'td["job_wait_step"][batch_idx, job_idx] = job_length - 1', "C07.e"),
+    V("C07", "ffsp-schedule-index-swapped", S_ + "ffsp/env.py", 'td["schedule"][batch_idx, machine_idx, job_idx] = time_idx', 'td["schedule"][batch_idx, job_idx, machine_idx] = time_idx', "C07.e"),
+    V("C07", "ffsp-duration-index-swapped", S_ + "ffsp/env.py", 'job_length = td["job_duration"][batch_idx, job_idx, machine_idx]', 'job_length = td["job_duration"][batch_idx, machine_idx, job_idx]', "C07.e"),
+    V("C07", "ffsp-job-offered-while-waiting", S_ + "ffsp/env.py", "job_available = job_in_stage & job_not_waiting", "job_available = job_in_stage", "C07.a"),
+    V("C07", "smtwtp-dummy-open", S_ + "smtwtp/env.py", "        available[:, 0] = 0  # mask the starting dummy node\n", "", "C07.e"),
+    V("C07", "l2d-flatten-m-j", "rl4co/models/zoo/l2d/decoder.py", '"b m j -> b (j m)"', '"b m j -> b (m j)"', "C07.c"),
+    V("C07", "eq-fjsp-gt-operator", FJ_, 'td["busy_until"].gt(td["time"].unsqueeze(1))', '(td["busy_until"] > td["time"].unsqueeze(1))', None),
+    V("C07", "eq-fjsp-rename-p", FJ_, "proc_time_of_action", "p_sel", None, count=99),
+    V("C07", "eq-fjsp-release-flipped", FJ_, '(curr_ops_end <= td["time"][:, None])', '(td["time"][:, None] >= curr_ops_end)', None),
+]
+
+CORPUS += [
+    V("C07", "fjsp-release-against-next-release-time", FJ_, '(curr_ops_end <= td["time"][:, None])', '(curr_ops_end <= available_time[:, None])', "C07.d"),
+    V("C07", "fjsp-makespan-sentinel-mask", FJ_, '-td["finish_times"].masked_fill(td["pad_mask"], -torch.inf).max(1).values', '-td["finish_times"].masked_fill(td["finish_times"] >= 9999, -torch.inf).max(1).values', "C07.f"),
+]
